@@ -233,6 +233,10 @@ pub fn run_property<W: World>(cfg: &RunCfg) -> Report {
     let mut known_hits = 0usize;
     let replays_dir = cfg.root.join("replays");
     for case in cases.iter() {
+        if case.class.starts_with("harness-panic") {
+            harness_errors.push(format!("the harness itself panicked ({}; {}); this is a bug in /verif, not a finding about the crate", case.class, case.origin));
+            continue;
+        }
         if let Some(k) = known.iter().find(|k| k.status == "open" && k.property == W::id() && k.class == case.class) {
             known_hits += 1;
             lines.push(format!("KNOWN-FINDING: {}", k.text));
